@@ -34,6 +34,7 @@ type c04Case struct {
 	Size    uint64    `json:"size"`
 	File    []byte    `json:"file"`
 	Seq     []recOut  `json:"seq"`
+	SeqFile []recOut  `json:"seq_file,omitempty"` // the same read through NewFileReaderWithFile (default buffer size)
 	At      []recOut  `json:"at"`
 	AtOffs  []uint64  `json:"at_offs"`
 	Mixed   []recOut  `json:"mixed"`
@@ -133,6 +134,10 @@ func (c *c04Case) Exec() {
 	}
 	c.File, _ = os.ReadFile(path)
 	c.Seq = readAllSeq(path, c.RBuf, c.Direct, len(c.Prog)+3)
+	c.SeqFile = nil
+	if len(c.Prog)%3 == 0 && !c.Direct {
+		c.SeqFile = readAllSeqWithFile(path, len(c.Prog)+3)
+	}
 	sv := c.survivors()
 	c.At, c.AtOffs, c.Seeks = nil, nil, nil
 	m, err := openMmap(path, c.SeekLen)
@@ -223,6 +228,16 @@ func (c *c04Case) Oracle() (bool, string) {
 	}
 	if c.Seq[len(sv)].Err != "EOF" {
 		return false, "sequential reader did not end with EOF: " + c.Seq[len(sv)].Err
+	}
+	if c.SeqFile != nil {
+		if len(c.SeqFile) != len(c.Seq) {
+			return false, fmt.Sprintf("the reader made by NewFileReaderWithFile returned %d items, the one made with a path %d", len(c.SeqFile), len(c.Seq))
+		}
+		for i := range c.Seq {
+			if c.SeqFile[i].Err != c.Seq[i].Err || c.SeqFile[i].Nil != c.Seq[i].Nil || !bytes.Equal(c.SeqFile[i].Data, c.Seq[i].Data) {
+				return false, fmt.Sprintf("record %d read through NewFileReaderWithFile differs from the one read through a path", i)
+			}
+		}
 	}
 	// random access at returned offsets
 	for i, s := range sv {
